@@ -17,7 +17,8 @@ import (
 const c08NDev = 41
 
 // c08Dev applies one deviation from the base shape
-//   2024-01-15 Sh?p / "    ex?:fo?d  1 USD" / "    as:ca?h"
+//
+//	2024-01-15 Sh?p / "    ex?:fo?d  1 USD" / "    as:ca?h"
 func c08Dev(o *c08Opt, d int) {
 	switch {
 	case d == 0:
@@ -152,11 +153,12 @@ func c08LayoutSites(l int) []int {
 }
 
 // c08Case is one chosen derivation: the document(s) and the way the server is set up.
-//   mode 0: one file f0, no workspace root
-//   mode 1: f0 = "include f1.journal" + transaction, f1 = declarations + transaction; no workspace root; request from f0
-//   mode 2: as 1 with workspace root (Initialize with RootURI)
-//   mode 3: as 2, request from the included file f1
-//   mode 4: as 1, request from the included file f1
+//
+//	mode 0: one file f0, no workspace root
+//	mode 1: f0 = "include f1.journal" + transaction, f1 = declarations + transaction; no workspace root; request from f0
+//	mode 2: as 1 with workspace root (Initialize with RootURI)
+//	mode 3: as 2, request from the included file f1
+//	mode 4: as 1, request from the included file f1
 type c08Case struct {
 	o     *c08Opt
 	items []int
@@ -270,11 +272,13 @@ func c08Union(a, b []int) []int {
 var c08GroupSites = [][]int{{c08SDesc}, {c08SSeg1}, {c08SAcct2}, {c08SDesc, c08SSeg1, c08SAcct2}}
 
 // c08ChooseThorough: the thorough-tier derivations, four families (all include the quick tier's shapes):
-//   0  two shape deviations on the same line (or one of them document-wide: CRLF, no final EOL), single layout,
-//      at most one wide character (astral or the 3-byte currency sign) among the leaves of that line
-//   1  every layout with the base shape, with CRLF, without final EOL; at most one wide character (three classes)
-//   2  every multi-file mode with one shape deviation (harnesses with modes only)
-//   3  one shape deviation and two wide characters (3 x 3 classes) at two of its sites
+//
+//	0  two shape deviations on the same line (or one of them document-wide: CRLF, no final EOL), single layout,
+//	   at most one wide character (astral or the 3-byte currency sign) among the leaves of that line
+//	1  every layout with the base shape, with CRLF, without final EOL; at most one wide character (three classes)
+//	2  every multi-file mode with one shape deviation (harnesses with modes only)
+//	3  one shape deviation and two wide characters (3 x 3 classes) at two of its sites
+//
 // c.line is the line the deviations change (-1: no single line).
 func c08ChooseThorough(c *c08Case, modes int) int {
 	o := c.o
@@ -420,7 +424,7 @@ type c08W struct {
 }
 
 func (w *c08W) uri() protocol.DocumentURI { return c08URI(w.names[w.req]) }
-func (w *c08W) doc() *c08Doc             { return w.docs[w.req] }
+func (w *c08W) doc() *c08Doc              { return w.docs[w.req] }
 
 // docOf: the document a URI names (nil if none of ours).
 func (w *c08W) docOf(u protocol.DocumentURI) *c08Doc {
@@ -574,8 +578,6 @@ func (d *c08Doc) sigs(li int) []c08Sig {
 				continue
 			}
 			switch {
-			case nb < 0 && d.crlf:
-				out = append(out, c08Sig{c08ClsCommText, l.rs, len(d.blank[l.line]) + 1})
 			case nb >= 0 && nb != d.semi[l.line]:
 				out = append(out, c08Sig{c08ClsCommText, l.rs, cm.rs})
 			}
@@ -583,9 +585,6 @@ func (d *c08Doc) sigs(li int) []c08Sig {
 	case c08KComm:
 		if c08LowerName(l.name) && !l.decl {
 			end := len(d.blank[l.line])
-			if d.crlf {
-				end++
-			}
 			if sm := d.semi[l.line]; sm >= l.re {
 				end = sm
 			}
@@ -594,11 +593,8 @@ func (d *c08Doc) sigs(li int) []c08Sig {
 			}
 		}
 	case c08KPath:
-		if d.crlf {
-			out = append(out, c08Sig{c08ClsLinkDir + "+" + c08ClsIncludeCR, l.rs - len("include "), len(d.blank[l.line]) + 1})
-		} else {
-			out = append(out, c08Sig{c08ClsLinkDir, l.rs - len("include "), len(d.blank[l.line])})
-		}
+		// (since the lexer treats CR LF as a line end the CR is no longer part of any range)
+		out = append(out, c08Sig{c08ClsLinkDir, l.rs - len("include "), len(d.blank[l.line])})
 	case c08KPayee:
 		for i := range d.leaves {
 			dl := &d.leaves[i]
